@@ -30,7 +30,7 @@ RULE = (
     "writer/loader entry point equals the modelled one (table ENTRY_POINTS, copied into the evidence notes)."
 )
 TRUSTED_BASE = [
-    "float text: repr(float)/float(str) round trip, that repr(x) is a JSON float token of printable ASCII characters (structure FloatText / JsonFloatTok in Props/C03Text.lean; exercised by X9-X14 and the oracle) and struct.pack('<d') are CPython assumptions; doubles are opaque bit patterns in the model",
+    "float text: repr(x) of every finite double passes the per-literal checks floatLitOK (float(repr x) == x, printable ASCII) and isFloatLit (one JSON float token) - an assumption on CPython's repr, sampled per run (X22, X9); float() itself is modelled (parseFloat) and corresponded; struct.pack('<d') is trusted; doubles are bit patterns in the model",
     "text codec of string values (encode/decode) is C09's subject: strings are byte lists in the binary model and code point lists in the text models; the recover model covers ASCII content (decode = identity)",
     "CPython json.dumps/json.loads, int(), str.strip(), io text layer: modelled (JsonTags.escape/scanStr/scanNumber/parseDoc, pyIntWs, strip, univNL/readLines) and tied by correspondence incl. every code point for the escape table and the isspace set by decide; not proved against CPython's source",
 ]
@@ -40,10 +40,9 @@ ASSUMPTIONS = [
     "int()/float() acceptance beyond what a writer produces (underscores, non-ASCII digits) and the repair paths (ProE int(float(text)), recover_int/recover_float, _search_int on code lines, \\U+XXXX / \\M+ decoding in recover) are reported as `unsupported` by the model and excluded from the generators",
 ]
 OPEN = [
-    "the float text stays an assumption (FloatText: repr/float round trip, printable ASCII; compact JSON: isFloatLit (repr x), a decidable per-literal check by jsonFloatTok_of_isFloatLit, evaluated for ~3000 reprs per run in X9); repr itself is not modelled",
+    "the float text: float() is now a MODEL (parseFloat: correctly rounded decimal -> binary64, corresponded with CPython on ~10k literals per run incl. halfway cases, denormals, overflow) and the assumption on repr() is reduced to the decidable per-literal checks floatLitOK/isFloatLit (floatText_checked, formats_agree_checked), evaluated for repr of >= 1 double per binary exponent + random bit patterns per run (X22); that CPython's repr passes them for EVERY finite double stays an assumption (repr's shortest-digits algorithm is not modelled)",
     "recover_agrees_on_input / recover_loader_agrees cover ASCII content and the fast paths; the repair paths of byte_tag_compiler (recover_int/recover_float, decoding fixes, \\U+ decoding) and safe_tag_loader's repair filters are C07's subject (correspondence only skips them)",
     "binary file header: the version/width half of scan_params is modelled and proved (scan_version_agrees, loader_width_agrees, X19); the $DWGCODEPAGE half and the text codec of binary strings are oracle-only (C09)",
-    "non-finite floats in compact JSON (known finding F28)",
 ]
 
 CLS = {"bytes": 0, "int16": 1, "int32": 2, "int64": 3, "double": 4, "binary": 5, "str": 6}
@@ -810,7 +809,7 @@ def correspond_text(ctx):
     ctx.correspond("X12 json_tag_loader+tag_compiler", "C03", lcases, build=DRIVER_DEPS)
 
     # --- X13: ASCII writer text, ascii_tags_loader+tag_compiler, recover bytes_loader+byte_tag_compiler
-    rcases, acases, bcases, icases = [], [], [], []
+    rcases, acases, bcases, icases, wcases2 = [], [], [], [], []
 
     def ascii_str(rng_):
         return "".join(rng_.choice(["a", "B", " ", "\t", "7", "é", "\r", "\x0c", "\x1f", "\u2028", "\\U+00E4", "{", "%", "\x85", "\xa0"]) for _ in range(rng_.randrange(0, 5)))
@@ -872,7 +871,38 @@ def correspond_text(ctx):
                 except Exception as e:  # noqa: recover paths outside the model
                     continue
                 bcases.append((f"rload|{ft2}|{cps(variant)}", r, variant != text))
+    # vertices with more than three coordinates: DXFVertex.dxftags() zips with three codes, every writer drops the rest
+    from ezdxf.lldxf.tagwriter import BinaryTagWriter as _BW2
+
+    for i in range(ctx.n(200, 2000)):
+        tags = [DXFTag(0, "X"), DXFVertex(rng.choice([10, 11, 210, 1010]), [rng.choice(FLOATS) for _ in range(rng.choice([3, 4, 5]))]), DXFTag(1, "y")]
+        req = ";".join(typed_tag(t) for t in tags)
+        ft = ft_table(tag_floats(tags))
+        rcases.append((f"arender|{ft}|{req}", cps(ascii_text(tags)), True))
+        for compact in (True, False):
+            wcases2.append((f"jwrite|{int(compact)}|{ft}|{req}", cps(json_text(tags, compact)), True))
+        sio = io.BytesIO()
+        w = _BW2(sio, dxfversion="AC1021")
+        for t in tags:
+            w.write_tag(t)
+        wcases2.append((f"bwrite|0|{req}", "ok " + nats(sio.getvalue()), True))
+    # non-finite floats: the compact JSON writer falls back to strings / single tags (fix of F28)
+    NONFIN = [float("inf"), float("-inf"), float("nan")]
+    for i in range(ctx.n(200, 2000)):
+        def fl():
+            return rng.choice(NONFIN) if rng.random() < 0.4 else rng.choice(FLOATS)
+        tags = [DXFTag(0, "X"), DXFTag(40, fl()), DXFVertex(rng.choice([10, 11, 210]), [fl() for _ in range(rng.choice([2, 3]))]), DXFTag(1, "y"),
+                DXFVertex(12, [fl(), fl()])]
+        req = ";".join(typed_tag(t) for t in tags)
+        ft = ft_table(tag_floats(tags))
+        for compact in (True, False):
+            text = json_text(tags, compact)
+            wcases2.append((f"jwrite|{int(compact)}|{ft}|{req}", cps(text), True))
+            r = json_load_impl(text)
+            ft2 = ft_table(tag_floats(tags), re.findall(r"-?[0-9][0-9.eE+-]*", text) + ["inf", "-inf", "nan"])
+            wcases2.append((f"jload|{ft2}|{cps(text)}", r, True))
     ctx.correspond("X13 TagWriter text", "C03", rcases, build=DRIVER_DEPS)
+    ctx.correspond("X13b writers: extra coordinates, non-finite floats in JSON", "C03", wcases2, build=DRIVER_DEPS)
     ctx.correspond("X14 ascii_tags_loader+tag_compiler", "C03", acases, build=DRIVER_DEPS)
     ctx.correspond("X15 recover bytes_loader+byte_tag_compiler", "C03", bcases, build=DRIVER_DEPS)
     ctx.correspond("X18 internal_tag_compiler typed", "C03", icases, build=DRIVER_DEPS)
@@ -955,6 +985,93 @@ def correspond_text(ctx):
             k += 3 + ln
         cases.append((f"bchunks|{nats(d)}", ";".join(nats(c) for c in chunks_) + f"#{len(chunks_)}", True))
     ctx.correspond("X17 packed tags, binary chunks", "C03", cases, build=DRIVER_DEPS)
+
+    # --- X21: whole tag lists through BinaryTagWriter.write_tag and tag_compiler(binary_tags_loader) (ASCII strings: the
+    #          text codec is the identity), both widths, truncated streams included
+    from ezdxf.lldxf.tagwriter import BinaryTagWriter as _BW
+    from ezdxf.lldxf.tagger import tag_compiler as _tc, binary_tags_loader as _bl
+    from ezdxf.lldxf.const import DXFStructureError as _SE
+
+    def ascii7(r_):
+        return "".join(r_.choice(["a", "B", " ", "7", "{", "%", "\t", '"', "\\"]) for _ in range(r_.randrange(0, 5)))
+
+    cases = []
+    for i in range(ctx.n(1200, 12000)):
+        tags = [t for t in gen_typed_tags(rng, strs=ascii7) if t.code != 999 and not (isinstance(t.value, str) and not t.value.isascii())]
+        req = ";".join(typed_tag(t) for t in tags)
+        for r12 in (False, True):
+            sio = io.BytesIO()
+            w = _BW(sio, dxfversion="AC1009" if r12 else "AC1021", encoding="cp1252" if r12 else "utf8")
+            try:
+                for t in tags:
+                    w.write_tag(t)
+                enc = "ok " + nats(sio.getvalue())
+            except OverflowError:
+                enc = "err OverflowError"
+            cases.append((f"bwrite|{int(r12)}|{req}", enc, bool(tags)))
+            if not enc.startswith("ok"):
+                continue
+            data = sio.getvalue()
+            for variant in dict.fromkeys([data, data[: rng.randrange(len(data) + 1)]]):
+                try:
+                    got = list(_tc(_bl(SIG + (b"" if r12 else R2000_HDR) + variant)))
+                    if not r12:
+                        got = got[2:]
+                    r = "ok " + ";".join(typed_tag(t) for t in got)
+                except (IndexError, struct.error, ValueError, _SE):  # a truncated stream
+                    r = "err structure"
+                cases.append((f"bload|{int(r12)}|{nats(variant)}", r, variant != data))
+    ctx.correspond("X21 binary tag lists (write_tag, loader+tag_compiler)", "C03", cases, build=DRIVER_DEPS)
+
+    # --- X22: float(text) vs parseFloat, and the per-literal check floatLitOK(bits, repr(x)) on a stratified sample:
+    #          every binary exponent (denormals included), +-0, boundaries of the exact powers of ten (1e22/1e23), 2**53
+    #          neighbourhood, halfway cases between adjacent doubles written with all their digits, over/underflow
+    from fractions import Fraction
+
+    cases = []
+    xs = list(FLOATS) + [0.0, -0.0, 1e22, 1e23, 9007199254740992.0, 9007199254740994.0, 5e-324, 2.225073858507201e-308, 2.2250738585072014e-308,
+                         1.7976931348623157e308, 0.3, 1 / 3, 1e-5, 1e15, 1e16, 123456789012345680.0, float("inf"), float("-inf"), float("nan")]
+    for ex in range(0, 2047):  # one or more values per binary exponent
+        for _ in range(1 if ctx.quick else 8):
+            xs.append(struct.unpack("<d", struct.pack("<Q", (rng.getrandbits(1) << 63) | (ex << 52) | rng.getrandbits(52)))[0])
+    for _ in range(ctx.n(500, 5000)):
+        xs.append(struct.unpack("<d", struct.pack("<Q", rng.getrandbits(64)))[0])
+        xs.append(float(rng.randrange(-10**6, 10**6)) / rng.choice([1, 10, 100, 1000, 3, 7]))
+        xs.append(10.0 ** rng.randrange(-320, 309) * rng.choice([1, 5, 9.999999999999999]))
+    texts = []
+    for x in xs:
+        t = repr(x)
+        b = _bits(x)
+        back = _bits(float(t))
+        cases.append((f"fltcheck|{b}|{cps(t)}", "1" if back == b else "0", True))
+        texts.append(t)
+        if rng.random() < 0.3:
+            texts += ["%.17g" % x, "%.3f" % x if abs(x) < 1e30 else t, "%e" % x, t.upper(), t.replace("e", "E+") if "e+" not in t and "e-" not in t else t]
+    # halfway points between adjacent doubles, exactly, with all digits (round half to even) and one digit more/less
+    for _ in range(ctx.n(300, 3000)):
+        b = rng.getrandbits(62) % (2046 << 52)
+        lo = struct.unpack("<d", struct.pack("<Q", b))[0]
+        hi = struct.unpack("<d", struct.pack("<Q", b + 1))[0]
+        mid = (Fraction(lo) + Fraction(hi)) / 2
+        if mid == 0 or mid.denominator.bit_length() > 400 or mid.numerator.bit_length() > 400:
+            continue
+        k = mid.denominator.bit_length() - 1  # denominator is a power of two: exact decimal expansion with k digits
+        digits = str(mid.numerator * 5 ** k)
+        t = digits + "e-" + str(k)
+        texts += [t, t.replace("e-", "1e-" + "") if False else digits + "1e-" + str(k + 1), str(int(digits) - 1) + "9e-" + str(k + 1)]
+    texts += ["", ".", "e5", "1e", "1e+", "--1", "1..2", "infx", "nan", "-nan", "+inf", "Infinity", "-INFINITY", "iNf", ".5", "5.", "1.e3", "+1", "-.5e-3", "1e400",
+              "-1e400", "1e-400", "0e999999", "0.0e-999999", "1e999999999", "1e-999999999", "00012.500", "9007199254740993", "9007199254740995",
+              "179769313486231580793728971405303415079934132710037826936173778980444968292764750946649017977587207096330286416692887910946555547851940402630657488671505820681908902000708383676273854845817711531764475730270069855571366959622842914819860834936475292719074168444365510704342711559699508093042880177904174497791.999",
+              "2.4703282292062327e-324", "2.4703282292062328e-324", "4.9406564584124654e-324", "7.4109846876186981e-324", "0x10", "1 2", "1e5.5", "1d5", "٣"]
+    for t in dict.fromkeys(texts):
+        if "_" in t or t != t.strip() or not t.isascii():
+            continue
+        try:
+            r = "ok " + str(_bits(float(t)))
+        except (ValueError, OverflowError):
+            r = "none"
+        cases.append((f"pfloat|{cps(t)}", r, True))
+    ctx.correspond("X22 float() and the per-literal repr check", "C03", cases, build=DRIVER_DEPS)
 
     # --- X20: tags.group_tags
     from ezdxf.lldxf.tags import group_tags
@@ -1163,7 +1280,7 @@ def oracle(ctx):
                 if not ok:
                     ctx.fail(f"{kind}/{code}/{v!r:.40}", f"{fmt}: tag ({code}, {v!r:.60}) {detail[:200]}",
                              {"op": "roundtrip", "fmt": fmt, "code": code, "value": repr(v)})
-    # non-finite floats: every format but compact JSON reads them back (known finding: `[40, inf]` is not JSON)
+    # non-finite floats: every format reads them back (compact JSON writes them as strings since the fix of F28)
     for x in (float("inf"), float("-inf"), float("nan")):
         for seq in ([DXFTag(0, "X"), DXFTag(40, x), DXFTag(0, "Y")], [DXFTag(0, "X"), DXFVertex(10, (x, 0.0)), DXFTag(0, "Y")]):
             for fmt in formats:
@@ -1289,6 +1406,8 @@ ENTRY_POINTS = {
     "extendedtags.ExtendedTags(...)/__iter__/new_app_data": "XTags.setup/iter/newAppData (X4, X6)",
     "packedtags.VertexArray.export_dxf/from_tags; TagList/TagArray.from_tags": "AsciiTags.vaExport/vaFromTags/tlFromTags (X17)",
     "tags.group_tags": "AsciiTags.groupTags (X20)",
+    "BinaryTagWriter.write_tag on tag lists + tag_compiler(binary_tags_loader)": "AsciiTags.binWrite/binLoad (X21)",
+    "float(text) as used by tag_compiler / internal_tag_compiler / byte_tag_compiler": "AsciiTags.parseFloat (X22)",
     "io: text file newline translation, readline": "AsciiTags.univNL/readLines (X16)",
 }
 
